@@ -9,7 +9,7 @@
   `0 ≤ idx d < sz d`, where `d` is the *spatial* dimension (x = 0, i.e. the LAST tensor axis).
   torch primitives are modelled by their documented semantics:
   `F.pad(mode="replicate")` = index clamping, `F.conv1d(padding=m)` = zero-padded
-  cross-correlation, slicing = index shift, `torch.cat` = piecewise definition.
+  cross-correlation (`padding=0`: no padding), slicing = index shift, `torch.cat` = piecewise definition.
 -/
 import Deepali.Model.Vec
 namespace Deepali
@@ -88,14 +88,24 @@ def finiteDifferencesOk (mode : FDMode) (n dil : Nat) : Bool :=
   | .fcb => decide (2 * dil ≤ n)
   | _ => true
 
-/-- zero padding of `F.conv1d(padding=1)`. -/
+/-- zero padding of `F.conv1d(padding=1)` (used by the averaging BEFORE the repair of F-17d; kept). -/
 def zeroPad (n : Nat) (f : Int → α) : Int → α :=
   fun k => if 0 ≤ k ∧ k < (n : Int) then f k else ((0 : Nat) : α)
 
-/-- src: image.py:conv1d @297-359 with a 3-tap kernel and integer `padding=1`
-    (→ PaddingMode.ZEROS, margin 1): zero-padded cross-correlation, same length. -/
-def conv3 (n : Nat) (w0 w1 w2 : α) (f : Int → α) : Int → α :=
+/-- BEFORE the repair of F-17d: image.py:conv1d @297-359 with a 3-tap kernel and integer `padding=1`
+    (→ PaddingMode.ZEROS, margin 1): zero-padded cross-correlation, same length. Kept for reference
+    (`avgPerpZero`, `sdStepZero`); not what the code does now. -/
+def conv3Zero (n : Nat) (w0 w1 w2 : α) (f : Int → α) : Int → α :=
   fun k => w0 * zeroPad n f (k - 1) + w1 * zeroPad n f k + w2 * zeroPad n f (k + 1)
+
+/-- src: image.py:spatial_derivatives @1579-1582 (repair of F-17d):
+    `F.pad(result, (1, 1) on this axis, mode="replicate")` then `conv1d(result, avg_kernel, dim, padding=0)`
+    (cross-correlation without padding; conv1d @297-359). With `P[m] = f[clamp(m − 1)]` the output index
+    `0 ≤ k < n` reads `P[k], P[k+1], P[k+2] = f[max(k−1, 0)], f[k], f[min(k+1, n−1)]`
+    (`Proofs/FDField.conv3_eq_padReplicate` states this against `padReplicate`). -/
+def conv3 (n : Nat) (w0 w1 w2 : α) (f : Int → α) : Int → α :=
+  fun k => w0 * f (if k - 1 < 0 then 0 else k - 1) + w1 * f k
+    + w2 * f (if (n : Int) ≤ k + 1 then (n : Int) - 1 else k + 1)
 
 /-- src: image.py:spatial_derivatives @1563-1566: `[1, c, 1] / sum` with c = 1 (prewitt), 2 (sobel). -/
 def SDMode.avgKernel : SDMode → Option (α × α × α)
@@ -103,8 +113,8 @@ def SDMode.avgKernel : SDMode → Option (α × α × α)
   | .sobel => some (((1 : Nat) : α) / ((4 : Nat) : α), ((2 : Nat) : α) / ((4 : Nat) : α), ((1 : Nat) : α) / ((4 : Nat) : α))
   | _ => none
 
-/-- averaging perpendicular to `a`. src: image.py:spatial_derivatives @1576-1584
-    (`for d in range(D) if d != sdim: result = conv1d(result, avg_kernel, dim, padding=1)`). -/
+/-- averaging perpendicular to `a`. src: image.py:spatial_derivatives @1576-1582
+    (`for d in range(D) if d != sdim: result = F.pad(result, …, "replicate"); result = conv1d(result, avg_kernel, dim, padding=0)`). -/
 def avgPerp {D} (sz : Fin D → Nat) (w : α × α × α) (a : Fin D) (dims : List (Fin D)) (A : Arr D α) : Arr D α :=
   dims.foldl (fun R d => if d = a then R else alongAxis d (conv3 (sz d) w.1 w.2.1 w.2.2) R) A
 
@@ -114,6 +124,17 @@ def sdStep {D} (mode : SDMode) (sz : Fin D → Nat) (sp : Fin D → α) (a : Fin
   let R := match (mode.avgKernel : Option (α × α × α)) with
     | none => A
     | some w => avgPerp sz w a (List.finRange D) A
+  alongAxis a (finiteDifferences mode.fdMode (sz a) 1 (sp a)) R
+
+/-- BEFORE the repair of F-17d: zero-padded averaging perpendicular to `a`. -/
+def avgPerpZero {D} (sz : Fin D → Nat) (w : α × α × α) (a : Fin D) (dims : List (Fin D)) (A : Arr D α) : Arr D α :=
+  dims.foldl (fun R d => if d = a then R else alongAxis d (conv3Zero (sz d) w.1 w.2.1 w.2.2) R) A
+
+/-- BEFORE the repair of F-17d: derivative step with zero-padded prewitt / sobel averaging. -/
+def sdStepZero {D} (mode : SDMode) (sz : Fin D → Nat) (sp : Fin D → α) (a : Fin D) (A : Arr D α) : Arr D α :=
+  let R := match (mode.avgKernel : Option (α × α × α)) with
+    | none => A
+    | some w => avgPerpZero sz w a (List.finRange D) A
   alongAxis a (finiteDifferences mode.fdMode (sz a) 1 (sp a)) R
 
 end Stencils
